@@ -20,6 +20,17 @@ type primRec struct {
 	mu    sync.Mutex
 	bytes map[string]string // message -> thres term
 	hash  map[string]string // key term -> thres term
+	jb    []string          // journal: messages / keys touched since the last take()
+	jh    []string
+}
+
+// take returns and clears the journal (the calls recorded for the current case).
+func (p *primRec) take() (b, h []string) {
+	p.mu.Lock()
+	defer p.mu.Unlock()
+	b, h = p.jb, p.jh
+	p.jb, p.jh = nil, nil
+	return
 }
 
 func newPrimRec() *primRec { return &primRec{bytes: map[string]string{}, hash: map[string]string{}} }
@@ -47,6 +58,7 @@ func (p *primRec) Bytes(msg string) (z *big.Int, err error) {
 	}()
 	p.mu.Lock()
 	p.bytes[msg] = thres(z, err)
+	p.jb = append(p.jb, msg)
 	p.mu.Unlock()
 	return z, err
 }
@@ -67,25 +79,31 @@ func (p *primRec) Hash(in []*big.Int) (z *big.Int, err error) {
 	}
 	p.mu.Lock()
 	p.hash["["+strings.Join(ks, ";")+"]"] = thres(z, err)
+	p.jh = append(p.jh, "["+strings.Join(ks, ";")+"]")
 	p.mu.Unlock()
 	return z, err
 }
 
-func (p *primRec) Coq(f *coqgen.File) string {
+// Coq renders the tables restricted to the given messages / keys.
+func (p *primRec) Coq(f *coqgen.File, needB, needH map[string]bool) string {
 	p.mu.Lock()
 	defer p.mu.Unlock()
 	var hs, bs []string
-	hk := make([]string, 0, len(p.hash))
-	for k := range p.hash {
-		hk = append(hk, k)
+	hk := make([]string, 0, len(needH))
+	for k := range needH {
+		if _, ok := p.hash[k]; ok {
+			hk = append(hk, k)
+		}
 	}
 	sort.Strings(hk)
 	for _, k := range hk {
 		hs = append(hs, fmt.Sprintf("(%s, %s)", k, p.hash[k]))
 	}
-	bk := make([]string, 0, len(p.bytes))
-	for k := range p.bytes {
-		bk = append(bk, k)
+	bk := make([]string, 0, len(needB))
+	for k := range needB {
+		if _, ok := p.bytes[k]; ok {
+			bk = append(bk, k)
+		}
 	}
 	sort.Strings(bk)
 	for _, k := range bk {
